@@ -107,3 +107,8 @@ pub assume_specification<T, A, I>[ <::std::vec::Vec<T, A> as core::iter::Extend<
     ensures
         final(v)@ == old(v)@ + iter_items(i),
 ;
+
+pub assume_specification<T>[ <[T]>::reverse ](s: &mut [T])
+    ensures
+        final(s)@ == old(s)@.reverse(),
+;
